@@ -228,10 +228,11 @@ cleanup loop has finished. The message stays in the buffer; this is outside "que
 disconnect request". -/
 theorem late_send_can_be_lost :
     ∃ sched : List Choice,
-      final (exec ⟨50, fun _ => none⟩ (Pipe.init [0]) sched) = true ∧
-      (exec ⟨50, fun _ => none⟩ (Pipe.init [0]) sched).done.count 0 = 0 ∧
-      (exec ⟨50, fun _ => none⟩ (Pipe.init [0]) sched).outQ = [0] :=
-  ⟨[.check 0, .disconnect, .qQuit, .qStep, .qStep, .oQuit, .oStep, .oStep, .send 0], by decide⟩
+      final (exec ⟨50, false, fun _ => none⟩ (Pipe.init [0]) sched) = true ∧
+      (exec ⟨50, false, fun _ => none⟩ (Pipe.init [0]) sched).done.count 0 = 0 ∧
+      (exec ⟨50, false, fun _ => none⟩ (Pipe.init [0]) sched).outQ = [0] :=
+  ⟨[.check 0, .disconnect, .qQuit, .qStep, .qStep, .oQuit, .oStep, .oStep, .iExit, .sInQuit,
+    .sOutQuit, .send 0], by decide⟩
 
 open Pipe in
 /-- Termination, part 1: every enabled action strictly decreases `measure`, so a schedule can
@@ -241,28 +242,51 @@ theorem all_terminate_bounded (c : Pipe.Cfg) (s : Sys) (sched : List Choice) :
   have := effective_le c sched s; omega
 
 open Pipe in
-/-- Termination, part 2: after the disconnect request, in every reachable state in which a
-handler goroutine is still alive, a handler action is enabled — so when nothing is enabled any
-more both handlers have returned. -/
-theorem all_terminate (c : Pipe.Cfg) (ids : List Nat) (sched : List Choice)
+/-- Termination, part 2 (repaired stall handler): after the disconnect request, in every
+reachable state in which a handler goroutine (queue, out, in, stall) is still alive, one of their
+actions is enabled — so when nothing is enabled any more all of them have returned. In
+particular `outHandler` never blocks for good on `stallControl`, `sendDoneQueue` or
+`queueQuit`, and `queueHandler` never on `sendQueue`. -/
+theorem all_terminate (c : Pipe.Cfg) (hfix : c.stallBug = false) (ids : List Nat)
+    (sched : List Choice)
     (hd : (exec c (Pipe.init ids) sched).disc = true)
     (hq : ∀ ch, stepOpt c (exec c (Pipe.init ids) sched) ch = none) :
     final (exec c (Pipe.init ids) sched) = true := by
   cases hf : final (exec c (Pipe.init ids) sched) with
   | true => rfl
   | false =>
-    have := progress c _ (fifo_exec c sched _ (ctl_init ids) (fifo_init ids)).1 hd hf
-    simp [hq] at this
+    obtain ⟨ch, _, hen⟩ := progress c _ (fifo_exec c sched _ (ctl_init ids) (fifo_init ids)).1
+      (stall_exec c hfix sched _ (stall_init ids)) hd hf
+    simp [hq ch] at hen
 
 open Pipe in
 /-- The hypotheses of `all_terminate` are satisfiable: a complete run. -/
 example : ∃ sched : List Choice,
-    (exec ⟨50, fun _ => none⟩ (Pipe.init [0, 1]) sched).disc = true ∧
-    final (exec ⟨50, fun _ => none⟩ (Pipe.init [0, 1]) sched) = true ∧
-    (exec ⟨50, fun _ => none⟩ (Pipe.init [0, 1]) sched).written = [0] ∧
-    (exec ⟨50, fun _ => none⟩ (Pipe.init [0, 1]) sched).done = [0, 1] :=
-  ⟨[.check 0, .send 0, .check 1, .send 1, .qRecvOut, .oRecv, .oStep, .oStep, .oStep, .qRecvOut,
-    .disconnect, .qQuit, .qStep, .qStep, .qStep, .oQuit, .oStep, .oStep], by decide⟩
+    (exec ⟨50, false, fun _ => none⟩ (Pipe.init [0, 1]) sched).disc = true ∧
+    final (exec ⟨50, false, fun _ => none⟩ (Pipe.init [0, 1]) sched) = true ∧
+    (exec ⟨50, false, fun _ => none⟩ (Pipe.init [0, 1]) sched).written = [0] ∧
+    (exec ⟨50, false, fun _ => none⟩ (Pipe.init [0, 1]) sched).done = [0, 1] :=
+  ⟨[.check 0, .send 0, .check 1, .send 1, .qRecvOut, .oRecv, .oStep, .sRecv, .oStep, .oStep, .oStep,
+    .qRecvOut, .disconnect, .qQuit, .qStep, .qStep, .qStep, .oQuit, .oStep, .oStep, .iExit,
+    .sInQuit, .sOutQuit], by decide⟩
+
+open Pipe in
+/-- F-C18-a, the stall handler as it was before the repair (`stallBug = true`): there is a
+schedule after which `outHandler` is blocked for good on its second `stallControl` send made
+after the stall handler left (it left after observing the closed `inQuit` twice): no handler
+action is enabled, the handlers are not all done, and message 1 — queued before the disconnect
+request — never gets its completion signal. `all_terminate` and `done_exactly_once` (whose
+`final` hypothesis can then never be met) exclude this for the repaired handler. -/
+theorem stall_bug_deadlocks :
+    ∃ sched : List Choice,
+      let s := exec ⟨50, true, fun _ => none⟩ (Pipe.init [0, 1]) sched
+      s.disc = true ∧ final s = false ∧ s.oh = .holding 1 ∧ s.todo = [] ∧ s.checked = [] ∧
+      1 ∈ s.sentBefore ∧ s.done.count 1 = 0 ∧
+      (∀ ch ∈ [Choice.disconnect, .qRecvOut, .qRecvDone, .qQuit, .qStep, .oRecv, .oQuit, .oStep,
+        .iExit, .sRecv, .sInQuit, .sOutQuit], stepOpt ⟨50, true, fun _ => none⟩ s ch = none) :=
+  ⟨[.check 0, .send 0, .check 1, .send 1, .qRecvOut, .qRecvOut, .disconnect, .iExit, .sInQuit,
+    .sInQuit, .oRecv, .oStep, .oStep, .oStep, .oStep, .qRecvDone, .oRecv, .qQuit, .qStep, .qStep],
+    by decide⟩
 
 /-! ## Constants regenerated from the tree -/
 
